@@ -127,6 +127,12 @@ Next ==
         /\ env' = [env EXCEPT !.tax = tax, !.reward = reward]
         /\ nup' = nup + 1
         /\ UNCHANGED <<dels, nep>>
+  \/ \E tax \in TAXES, reward \in REWARDS :      \* the same messages on a discarded branch of state: nothing is configured
+        /\ hist # <<>> /\ nup < MAXUPD
+        /\ <<tax, reward>> # <<env.tax, env.reward>>
+        /\ Do("UpdateParamsDropped", [tax |-> tax, reward |-> reward])
+        /\ nup' = nup + 1
+        /\ UNCHANGED <<env, dels, nep>>
   \/ \E ended \in SUBSET IDS :
         /\ ended # {} => nep < MAXEPOCHS
         /\ Do("Block", [ended |-> ended])
